@@ -8,14 +8,23 @@ from tools.props import c04
 ID = 'C07'
 TARGETS = ['MindsVerif.Props.C07']
 THEOREMS = ['MindsVerif.Props.C07.' + n for n in (
-    'C07_std', 'C07_mysql', 'C07_codec_for_target', 'C07_paths', 'C07_structure', 'C07_tostring_codec', 'C07_tostring_partial', 'C07_witness_mysql', 'C07_witness_mysql_value',
-    'C07_witness_tostring')]
+    'C07_std', 'C07_mysql', 'C07_codec_for_target', 'C07_paths', 'C07_structure', 'C07_tostring_codec',
+    'C07_fallback_mysql', 'C07_fallback_std_partial', 'C07_review_fallback_witness', 'C07_old_tostring_partial', 'C07_old_witness_mysql', 'C07_old_witness_mysql_value',
+    'C07_old_witness_tostring')]
 ASSUME = [
     'standard-SQL string literal rules (LitRender.stdLex: only the doubled quote is special) — validated in this run against sqlite3 '
     '(SELECT <literal> returns the value); PostgreSQL (standard_conforming_strings), MSSQL, Oracle are assumed to follow the same rules',
-    'MySQL string literal rules with backslash escapes (LitRender.mysqlLex, default sql_mode, NO_BACKSLASH_ESCAPES off) are taken from the MySQL manual; no engine offline',
-    'renderLiteral transcribes the LiteralCompiler override; tie = correspondence with SqlalchemyRender.get_string for 6 dialect names x 5 positions',
-    'non-string constants (int, float, bool, NULL, dates) are delegated to SQLAlchemy / str(): covered by the probe only',
+    'MySQL string literal rules with backslash escapes (LitRender.mysqlLex, default sql_mode, NO_BACKSLASH_ESCAPES off) are taken from the MySQL manual; '
+    'no engine offline (mysqlLex / mysqlEsc are tied only to a Python mirror written from the manual)',
+    'Snowflake (the name is rendered with the Oracle dialect) is taken to read backslash escapes inside single-quoted constants '
+    '(Snowflake SQL reference); not verifiable offline — the mismatch is an open known finding, not a theorem',
+    'renderLiteral transcribes quote_literal behind the LiteralCompiler override; tie = correspondence with SqlalchemyRender.get_string for '
+    'every accepted construction path (string names, dialect classes of every driver sub-dialect, URL-derived classes); which codec a path '
+    'uses is probed data (Gen/RenderPaths.lean) checked by the kernel obligation C07_paths',
+    'the default get_string(ast) falls back to str(ast) when the renderer refuses a tree: driven by the fallback probe (construction paths x '
+    'refused trees x special constants); theorems C07_fallback_mysql / _std_partial, the complement is an open known finding',
+    'Codec.constantToString / readString (the library codec) are tied to the code by the C04 run',
+    'non-string constants (int, float, bool, NULL, dates) are delegated to SQLAlchemy / str(): covered by the typed probe only',
 ]
 RENDER_DIALECTS = ('mysql', 'postgres', 'postgresql', 'sqlite', 'mssql', 'oracle')
 STD = ('postgres', 'postgresql', 'sqlite', 'mssql', 'oracle')
@@ -117,7 +126,7 @@ def bs_target(dialect):
     if dialect not in _TARGET:
         from tools.harness import renderpaths
         r = new_renderer(dialect)
-        _TARGET[dialect] = (renderpaths.backslash_target(r), r.dialect.name)
+        _TARGET[dialect] = (renderpaths.backslash_target(r, dialect), r.dialect.name)
     return _TARGET[dialect][0]
 
 
@@ -181,7 +190,10 @@ def probe_render(dialect, position, v):
         return lit, None
     cls = []
     if bs_target(dialect) and '\\' in v:
-        cls = ['mariadb-backslash'] if _TARGET[dialect][1] == 'mariadb' else ['mysql-backslash']
+        if dialect.lower() in ('name:snowflake', 'snowflake'):
+            cls = ['snowflake-backslash']
+        else:
+            cls = ['mariadb-backslash'] if _TARGET[dialect][1] == 'mariadb' else ['mysql-backslash']
     return lit, dict(kind='render', desc='%s rendering of Constant(%r) in %s position is %r: the %s reader does not read the value back / structure changes'
                      % (dialect, v, position, sql, 'MySQL' if bs_target(dialect) else 'standard-SQL'), dialect=dialect,
                      position=position, value=v, sql=sql, classes=cls, **{'class': 'render/%s/%s' % (dialect, '+'.join(cls) or 'NEW')})
@@ -421,6 +433,80 @@ def std_lex_bs(s):
     return None if r is None else (lexh.denote(r[0], "'"), r[1])
 
 
+# ------------------------------------------------------------------ fallback path of the default get_string(ast)
+def refused_shapes():
+    """trees the renderer refuses (NotImplementedError / SQLAlchemyError), each holding one constant"""
+    from mindsdb_sql.parser import ast as A
+    I = A.Identifier
+    return {
+        'select-list/4-part-table': lambda c: A.Select(targets=[c], from_table=I('a.b.c.d')),
+        'where/4-part-table': lambda c: A.Select(targets=[I('x')], from_table=I('a.b.c.d'), where=A.BinaryOperation('=', args=[I('x'), c])),
+        'in/4-part-table': lambda c: A.Select(targets=[I('x')], from_table=I('a.b.c.d'),
+                                              where=A.BinaryOperation('in', args=[I('x'), A.Tuple([c, A.Constant(7)])])),
+        'insert/4-part-table': lambda c: A.Insert(table=I('a.b.c.d'), columns=[I('x')], values=[[c]]),
+        'update/4-part-table': lambda c: A.Update(table=I('a.b.c.d'), update_columns={'x': c}),
+        'cast/unknown-type': lambda c: A.Select(targets=[A.TypeCast(type_name='foo', arg=c)], from_table=I('t')),
+    }
+
+
+_fb_frames = {}
+
+
+def fallback_frame(dialect, shape):
+    """(prefix, suffix) of what the DEFAULT get_string returns for a refused tree, or None when the renderer does
+    not refuse this shape for this construction path (then the ordinary rendering streams cover it)"""
+    from mindsdb_sql.parser.ast import Constant
+    k = (dialect, shape)
+    if k not in _fb_frames:
+        mk = refused_shapes()[shape]
+        r = new_renderer(dialect)
+        try:
+            r.get_string(mk(Constant('QZQ')), with_failback=False)
+            _fb_frames[k] = None
+        except Exception:
+            try:
+                s = r.get_string(mk(Constant('QZQ')))
+                i = s.index("'QZQ'")
+                _fb_frames[k] = (s[:i], s[i + 5:])
+            except Exception:
+                _fb_frames[k] = None
+    return _fb_frames[k]
+
+
+def probe_fallback(dialect, shape, v, conn=None):
+    """default get_string(ast) on a tree the renderer refuses: the text handed to the caller must still contain one
+    literal that the TARGET's reader reads back as v, with the statement structure unchanged"""
+    from mindsdb_sql.parser.ast import Constant
+    fr = fallback_frame(dialect, shape)
+    if fr is None:
+        return None
+    pre, suf = fr
+    sql = new_renderer(dialect).get_string(refused_shapes()[shape](Constant(v)))
+    reader = mysql_lex if bs_target(dialect) else std_lex
+    ok = sql.startswith(pre)
+    if ok:
+        r = reader(sql[len(pre):])
+        ok = r is not None and r[0] == v and r[1] == suf
+    engine = None
+    if ok and conn is not None and '\x00' not in v and not bs_target(dialect):
+        # a real standard-SQL engine on the literal as printed
+        lit = sql[len(pre):len(sql) - len(suf)] if suf else sql[len(pre):]
+        try:
+            rows = conn.execute('SELECT ' + lit).fetchall()
+            engine = rows
+            ok = rows == [(v,)]
+        except Exception as e:
+            engine, ok = '%s: %s' % (type(e).__name__, e), False
+    if ok:
+        return None
+    cls = ['fallback-library-codec'] if (not bs_target(dialect)) and ("'" in v or '\\' in v) else []
+    return dict(kind='fallback', desc='%s: default get_string() on a tree the renderer refuses (%s) with Constant(%r) returns %r: the %s reader '
+                'does not read the value back / structure changes%s' % (dialect, shape, v, sql, 'MySQL' if bs_target(dialect) else 'standard-SQL',
+                                                                      '' if engine is None else ' (sqlite3: %r)' % (engine,)),
+                dialect=dialect, shape=shape, value=v, sql=sql, classes=cls,
+                **{'class': 'fallback/%s/%s' % ('bs-target' if bs_target(dialect) else 'std-target', '+'.join(cls) or 'NEW')})
+
+
 def kf_match(k, f):
     sig = k.get('signature', {})
     if sig.get('kind') != f.get('kind'):
@@ -436,6 +522,7 @@ def other_constants():
 
 
 def run(chk):
+    chk.kf[:] = list({k['id']: k for k in chk.kf}.values())   # a proposed (changed) entry replaces the committed one
     quick = chk.tier == 'quick'
     broken = bool(chk.broken())
     deep = not quick
@@ -545,6 +632,23 @@ def run(chk):
                     corr['render'][0] += 1
                     if lit != model_lit[(path_codec(label), v)]:
                         diverge('render', dict(dialect=label, position=pos, value=v, model=model_lit[(path_codec(label), v)], impl=lit))
+    # the fallback of the default get_string(ast): construction paths x refused trees x special constants
+    fb_values = SPECIAL + list(lexh.strings_upto(2 if quick else 3))
+    seenf = set()
+    fb_values = [v for v in fb_values if not (v in seenf or seenf.add(v))]
+    fb_paths = list(RENDER_DIALECTS) + ['name:Snowflake', 'class:mysql.pymysql', 'class:postgresql.psycopg2', 'class:sqlite.pysqlite',
+                                        'url:mariadb+pymysql', 'class:mssql.pyodbc', 'class:oracle.oracledb']
+    for d in fb_paths:
+        for shape in refused_shapes():
+            if fallback_frame(d, shape) is None:
+                bump('fallback/not-refused')
+                continue
+            for v in fb_values:
+                chk.count(('fallback', d, shape, v))
+                f = probe_fallback(d, shape, v, conn if d in ('sqlite', 'class:sqlite.pysqlite') else None)
+                bump('fallback/%s/%s' % ('bs' if bs_target(d) else 'std', 'fail' if f else 'ok'))
+                if f:
+                    record(f)
     # several constants of different types but equal Python value in one statement, and in two statements rendered by the
     # SAME renderer instance; date / datetime (microseconds, tzinfo) / timedelta constants; all positions
     from mindsdb_sql.render.sqlalchemy_render import SqlalchemyRender
@@ -601,6 +705,8 @@ def replay_witness(w):
         return probe_render(w['dialect'], w['position'], w['value'])[1]
     if w['kind'] == 'tostring':
         return probe_tostring(w['dialect'], w['position'], w['value'])
+    if w['kind'] == 'fallback':
+        return probe_fallback(w['dialect'], w['shape'], w['value'], sqlite3.connect(':memory:') if 'sqlite' in w['dialect'] else None)
     if w['kind'] == 'typed':
         vals = [eval(x, {'datetime': _dt}) for x in w['values']]
         if w.get('shared') and w['path'] == 'render':
